@@ -163,6 +163,8 @@ func (d *Deps) atoms(e ast.Node, out map[string]bool) {
 				out["call:"+qname(f)] = true
 			} else if b := calleeBuiltin(d.info, x); b != "" {
 				out["call:builtin."+b] = true
+			} else if v := calleeVarName(d.info, x); v != "" {
+				out["call:"+v] = true
 			}
 		}
 		return true
